@@ -25,7 +25,7 @@ PROBES = ["dup_complement", "dup_complement_before_path", "asym_cigar", "self_li
           "path_reversed_traversal", "path_before_link", "variant_second_edge", "algebra_checked",
           "algebra_after_edit", "complement_held_early", "complement_of_link_with_placeholders",
           "complement_of_foreign_link", "held_complement_after_removal",
-          "path_overlaps_partly_given"]
+          "path_overlaps_partly_given", "tags_differ_one_side", "mirror_of_containment"]
 
 
 def gen(streams, tier, i):
@@ -112,6 +112,15 @@ def gen(streams, tier, i):
     ops += body
     ops.append({"op": "flush"})
     ops.append({"op": "algebra"})
+    if cfg.random() < 0.25 and segs:
+        # a containment with an identifier, then a link with the same identifier written as its mirror image: another
+        # record type is not the other form of the edge, the identifier is taken
+        x, y = hr.choice(segs), hr.choice(segs)
+        cg = hr.choice(["3M1I2M", "4M", "1D2M", "*", "2M2I"])
+        o1, o2 = hr.choice("+-"), hr.choice("+-")
+        a, b = gtext.link_forms([x, o1, y, o2, cg])
+        ops.append({"op": "mirror_of_containment", "c": "C\t%s\t%s\t%s\t%s\t%d\t%s\tID:Z:zmx" % (x, o1, y, o2, hr.randrange(3), cg),
+                    "l": "\t".join(["L"] + list(hr.choice([a, b])) + ["ID:Z:zmx"]), "as": hr.choice(["str", "obj"])})
     return {"cfg": {"vlevel": vlevel, "order": mode, "early": early}, "ops": ops}
 
 
@@ -154,6 +163,26 @@ def algebra(g, st):
             if r1 != (True, True, want_same):
                 raise core.Violation("equivalence-wrong",
                                      "%r vs its complement: is_complement,is_eql,is_same = %r" % (pos, r1))
+        # the tags of a link and of its complement are the same; with a tag more or less on one side they are not,
+        # whichever side is asked
+        t0 = core.call(lambda: (l.are_tags_eql(c), c.are_tags_eql(l)))
+        st.count("oracle.tags_eql")
+        if t0.ok and t0.value != (True, True):
+            raise core.Violation("equivalence-wrong", "%r vs its complement: are_tags_eql both ways = %r" %
+                                 (ob.line_text(l), t0.value), what="tags")
+        c2 = core.call(c.clone)
+        if c2.ok:
+            names = list(c2.value.tagnames)
+            if names and len(pos[0]) % 2:
+                e = core.call(c2.value.delete, names[-1])
+            else:
+                e = core.call(c2.value.set, "zq", 7)
+            if e.ok and sorted(c2.value.tagnames) != sorted(l.tagnames):
+                st.count("probe.tags_differ_one_side")
+                t1 = core.call(lambda: (l.are_tags_eql(c2.value), c2.value.are_tags_eql(l)))
+                if t1.ok and t1.value != (False, False):
+                    raise core.Violation("equivalence-wrong", "%r vs %r (one tag apart): are_tags_eql both ways = %r" %
+                                         (ob.line_text(l), ob.line_text(c2.value), t1.value), what="tags")
         if not (l.is_same(l) and l.is_eql(l)):
             raise core.Violation("equivalence-wrong", "%r is not the same as itself" % (pos,))
         if pos[4] != "*":
@@ -253,6 +282,28 @@ def run(scn, st):
         if k == "algebra":
             if g.version == "gfa1":
                 algebra(g, st)
+            continue
+        if k == "mirror_of_containment":
+            if g.version != "gfa1":
+                continue
+            # (on a second Gfa with the same content: the comparison with the model at the end is about the first)
+            g2 = core.call(gfapy.Gfa, str(g), vlevel=g._vlevel, version="gfa1")
+            if not g2.ok:
+                continue
+            g = g2.value
+            o1 = core.call(g.add_line, op["c"])
+            if not o1.ok:
+                continue
+            before = sorted(ob.text_lines(g))
+            st.count("probe.mirror_of_containment")
+            o2 = core.call(g.add_line, gfapy.Line(op["l"], vlevel=g._vlevel) if op["as"] == "obj" else op["l"])
+            after = sorted(ob.text_lines(g))
+            if o2.ok and after == before:
+                raise core.Violation("containment-taken-for-complement", "%r is stored; %r (same identifier) was neither "
+                                     "refused nor stored" % (op["c"], op["l"]))
+            if not o2.ok and o2.kind == "gfapy" and after != before:
+                raise core.Violation("containment-taken-for-complement", "%r is stored; %r was refused (%s) but the Gfa "
+                                     "changed" % (op["c"], op["l"], o2.excname))
             continue
         if k == "hold_complement":
             ls = stored_links(g) if g.version == "gfa1" else []
